@@ -587,7 +587,37 @@ def reduces_to_known_rule_finding(case):
                 if not ok:
                     return False  # a rule misbehaves here in a way no recorded finding covers
                 hit = True
-    return hit or _stepwise_reduction(case, m, feeds, known)
+    return hit or _stepwise_reduction(case, m, feeds, known) or _ablation_reduction(case, known)
+
+
+def _ablation_reduction(case, known):
+    """Last resort for violations that only the interplay of passes produces (no unit misbehaves on the original model, and the
+    one-firing-at-a-time replay does not reach the state the real pipeline reaches, e.g. because common-subexpression elimination runs
+    in between): the violation disappears when the rules that recorded C05 findings name are taken out of the default rule set."""
+    import onnxscript.rewriter as rw
+    from vf.props import C05
+
+    units = C05.rule_units()
+    named = {n for e in known for n in units if re.search(r"(?<![A-Za-z0-9_])" + re.escape(n) + r"(?![A-Za-z0-9_])", e["bucket"].replace("\\", ""))}
+    ids = {id(r) for n in named for r in units[n].rules}
+    names = {r.name for n in named for r in units[n].rules if r.name}
+    orig = rw._DEFAULT_REWRITE_RULES
+    kept = tuple(r for r in orig if id(r) not in ids and (r.name is None or r.name not in names))
+    if len(kept) == len(orig):
+        return False
+    if "binding" in case:
+        from vf.props import C09 as mod
+    elif "overridable" in case:
+        from vf.props import C04 as mod
+    else:
+        from vf.props import C03 as mod
+    rw._DEFAULT_REWRITE_RULES = kept
+    try:
+        return not mod.replay(case)
+    except Exception:  # noqa: BLE001
+        return False
+    finally:
+        rw._DEFAULT_REWRITE_RULES = orig
 
 
 def _attributed(unit, model, feeds, bucket, commute, known):
@@ -759,4 +789,15 @@ REGIONS["cse_drops_output_type"] = cse_drops_output_type
 REGIONS["value_name_defined_in_several_scopes"] = value_name_defined_in_several_scopes
 REGIONS["ir_version_lt4"] = ir_version_lt4
 REGIONS["bn_training_mode_unused_stats"] = bn_training_mode_unused_stats
+
+
+def bn_training_and_inverted_clip_chain(case):
+    """Two recorded findings in one model, each hiding the other from its own predicate: a training-mode BatchNormalization whose
+    statistics reach the outputs only through nodes that constant folding removes (after which onnx_ir's dead-output removal pops
+    training_mode, see bn_training_mode_unused_stats), and a Clip(Clip(x)) chain with an inverted interval (clip_chain_disjoint_or_inverted)."""
+    m = M(case)
+    return any(n.op_type == "BatchNormalization" and attr(n, "training_mode", 0) for n in m.graph.node) and _clip_chain_order_matters(m)
+
+
+REGIONS["bn_training_and_inverted_clip_chain"] = bn_training_and_inverted_clip_chain
 REGIONS["reduces_to_known_rule_finding"] = reduces_to_known_rule_finding
